@@ -12,6 +12,7 @@ import Nstd.Variant.Ieee
         | aapp <src> | arem i | mput <khex> <src> | mrem <khex> | sapp <hex>
     get v w <path>         var[v] = <const walk in var[w]>
     swap v w
+    stats                  (driver only) coverage counters read off the model: copy-on-write branches, depths, refused lines
     selfapp l|a|m|n|e      probe of the finding "self-append" on a local Variant (prints container sizes along `.back()`)
     <path> = `.` | steps joined by `/`:  l<i> (list item)  a<i> (array item)  m<khex> (map value)
     <src>  = v<k> | <lit>
@@ -180,29 +181,137 @@ def obs (s : Deep.DState) : String :=
   " | ".intercalate ((List.range nvars).map (fun v => obsVar (s.read v) ++ " " ++ renderRefs (s.h.next + 1) s.h (s.vars v))) ++ " # " ++
     String.join (vals.map (fun a => String.join (vals.map (fun b => eqChar (veq ieee a b)))))
 
-def stepLine (s : Deep.DState) (ws : List String) : Deep.DState × String :=
+/-! ### coverage counters (evidence only; `stats` is answered by the driver alone)
+
+The branch decisions are read off the model itself: the walk is replayed with the model's own
+functions and the condition of every copy-on-write test (`type differs || ref > 1`) on the way is
+recorded before the corresponding step is taken. -/
+
+structure Stats where
+  lines : Nat := 0
+  refused : Nat := 0
+  faults : Nat := 0
+  accRootClone : Nat := 0      -- mutable accessor on a variable: new block (type differs or shared)
+  accRootInPlace : Nat := 0
+  accNestedClone : Nat := 0    -- … on an element reached through accessors
+  accNestedInPlace : Nat := 0
+  accSharedClone : Nat := 0    -- clones taken because `ref > 1` with the right type (the lazy-copy path proper)
+  setClone : Nat := 0          -- typed String/List/Array/HashMap assignment: new block
+  setInPlace : Nat := 0
+  maxPath : Nat := 0
+  maxDepth : Nat := 0          -- deepest value held by a variable
+  blocks : Nat := 0            -- blocks allocated
+  freed : Nat := 0             -- blocks freed by `clear()` / destructor cascades (allocated - live at reset)
+
+open Deep in
+def cowCond (h : Heap) (c : Cell) (kind : Nat) : Bool × Bool :=
+  (decide (cellType h c ≠ kind ∨ cellRef h c > 1), decide (cellType h c = kind ∧ cellRef h c > 1))
+
+def Stats.acc (st : Stats) (nested : Bool) (cond : Bool × Bool) : Stats :=
+  let st := if cond.2 then { st with accSharedClone := st.accSharedClone + 1 } else st
+  match nested, cond.1 with
+  | false, true => { st with accRootClone := st.accRootClone + 1 }
+  | false, false => { st with accRootInPlace := st.accRootInPlace + 1 }
+  | true, true => { st with accNestedClone := st.accNestedClone + 1 }
+  | true, false => { st with accNestedInPlace := st.accNestedInPlace + 1 }
+
+open Deep in
+/-- replay of `walkMut` that only records the copy-on-write decisions -/
+def traceWalk (fuel : Nat) (rd : Nat → Cell) (h : Heap) (c : Cell) (nested : Bool) (st : Stats) : List Step → LeafS → Stats
+  | [], lf =>
+    (match lf with
+     | .touch k => st.acc nested (cowCond h c k)
+     | .lapp _ | .lpre _ | .lrem _ => st.acc nested (cowCond h c 8)
+     | .aapp _ | .arem _ => st.acc nested (cowCond h c 9)
+     | .mput _ _ | .mrem _ => st.acc nested (cowCond h c 7)
+     | .sapp _ => st.acc nested (cowCond h c 10)
+     | .set e =>
+       (match e with
+        | .lit (.str _) =>
+          if (cowCond h c 10).1 then { st with setClone := st.setClone + 1 } else { st with setInPlace := st.setInPlace + 1 }
+        | .lit _ => st
+        | e =>
+          (match tmpPay fuel rd h e with
+           | some (h1, p) =>
+             if (cowCond h1 c p.type).1 then { st with setClone := st.setClone + 1 } else { st with setInPlace := st.setInPlace + 1 }
+           | none => st))
+     | _ => st)
+  | s :: p, lf =>
+    let st := st.acc nested (cowCond h c s.kind)
+    (match accessCell fuel ieee h c s.kind with
+     | some (h1, .ptr b) =>
+       (match h1.heap b with
+        | some blk =>
+          (match blk.pay.getCell s with
+           | some ci => traceWalk fuel rd (setPay h1 b (blk.pay.setCell s .null)) ci true st p lf
+           | none => st)
+        | none => st)
+     | _ => st)
+
+mutual
+def valDepth : Val → Nat
+  | .list l => valDepthL l + 1
+  | .array l => valDepthL l + 1
+  | .map m => valDepthM m + 1
+  | _ => 0
+def valDepthL : List Val → Nat
+  | [] => 0
+  | a :: t => max (valDepth a) (valDepthL t)
+def valDepthM : List (Str × Val) → Nat
+  | [] => 0
+  | (_, a) :: t => max (valDepth a) (valDepthM t)
+end
+
+open Deep in
+def liveBlocks (h : Heap) : Nat := (List.range h.next).countP (fun i => (h.heap i).isSome)
+
+def Stats.closeHistory (st : Stats) (s : Deep.DState) : Stats :=
+  { st with blocks := st.blocks + s.h.next, freed := st.freed + (s.h.next - liveBlocks s.h) }
+
+def Stats.show (st : Stats) : String :=
+  s!"stats lines={st.lines} refused={st.refused} faults={st.faults} acc_root_clone={st.accRootClone} " ++
+  s!"acc_root_inplace={st.accRootInPlace} acc_nested_clone={st.accNestedClone} acc_nested_inplace={st.accNestedInPlace} " ++
+  s!"acc_clone_because_shared={st.accSharedClone} set_clone={st.setClone} set_inplace={st.setInPlace} " ++
+  s!"max_path={st.maxPath} max_value_depth={st.maxDepth} blocks_allocated={st.blocks} blocks_freed={st.freed}"
+
+def traceOp (s : Deep.DState) (st : Stats) (op : Op) : Stats :=
+  match op with
+  | .mut v p lf =>
+    let st := { st with maxPath := max st.maxPath p.length }
+    (match p, lf with
+     | [], .assign (.var _) => st
+     | p, lf => traceWalk (s.h.next + Deep.allocBound op + 1) s.vars s.h (s.vars v) false st p lf)
+  | _ => st
+
+def stepLine (ss : Deep.DState × Stats) (ws : List String) : (Deep.DState × Stats) × String :=
+  let (s, st) := ss
   match ws with
-  | ["reset"] => (Deep.dinit, obs Deep.dinit)
+  | ["reset"] => ((Deep.dinit, st.closeHistory s), obs Deep.dinit)
+  | ["stats"] => (ss, (st.closeHistory s).show)
   | ["selfapp", k] =>
     -- finding "self-append": outside the precondition `mutOk` of the model; the line answers with
     -- what the specification (value semantics: the appended copy is the old value) prescribes
-    (s, if k == "l" || k == "a" || k == "m" then s!"selfapp {k} 1 0 0 0 0"
+    (ss, if k == "l" || k == "a" || k == "m" then s!"selfapp {k} 1 0 0 0 0"
         else if k == "n" then "selfapp n 1 1 1 0 0"
         else if k == "e" then "selfapp e 1 1 0 0 0"
         else "bad-op")
   | _ =>
+    let st := { st with lines := st.lines + 1 }
     match parseOp ws with
-    | none => (s, "bad-op")
+    | none => ((s, { st with refused := st.refused + 1 }), "bad-op")
     | some op =>
       -- the line is valid iff the specification accepts it on the current values
       -- (what the harness checks on the const view before it touches anything)
       match specStep ieee s.read op with
-      | none => (s, "bad-op")
+      | none => ((s, { st with refused := st.refused + 1 }), "bad-op")
       | some _ =>
+        let st := traceOp s st op
         match Deep.dstep ieee s op with
-        | some s' => (s', obs s')
-        | none => (Deep.dinit, "FAULT")
+        | some s' =>
+          let d := ((List.range nvars).map (fun v => valDepth (s'.read v))).foldl max 0
+          ((s', { st with maxDepth := max st.maxDepth d }), obs s')
+        | none => ((Deep.dinit, { st with faults := st.faults + 1 }), "FAULT")
 
 end Nstd.Variant
 
-def main : IO Unit := Nstd.Common.ioLoop Nstd.Variant.Deep.dinit Nstd.Variant.stepLine
+def main : IO Unit := Nstd.Common.ioLoop (Nstd.Variant.Deep.dinit, ({} : Nstd.Variant.Stats)) Nstd.Variant.stepLine
